@@ -80,8 +80,11 @@ type Env struct {
 	Pgp       map[string]*openpgp.Entity   // RSA signing key name -> entity
 	RootPEM   string                       // path
 	AuditFile string
-	Binary    string // relic binary (pipeline B), built on demand
+	Binary    string                    // relic binary (pipeline B), built on demand
 	Prompt    passprompt.PasswordGetter // handed to the token (PKCS#12 passwords)
+	// ExternalServer: the daemon runs elsewhere (Cfg.Remote.URL is set by the test);
+	// SignServer then never starts the in-process daemon.
+	ExternalServer bool
 
 	mu      sync.Mutex
 	tok     token.Token
@@ -380,8 +383,10 @@ func (e *Env) signServerOnce(r *Req) (err error) {
 			err = fmt.Errorf("PANIC in client pipeline: %v", p)
 		}
 	}()
-	if err := e.StartServer(); err != nil {
-		return err
+	if !e.ExternalServer {
+		if err := e.StartServer(); err != nil {
+			return err
+		}
 	}
 	mod, err := Module(r)
 	if err != nil {
